@@ -427,7 +427,8 @@ def cli_projection(ctx, results, what_checks, n):
     pth = os.path.join(d, "in.jsonl")
     with open(pth, "w") as f:
         for inp, *_ in sample:
-            f.write(json.dumps({"id": inp["id"], "patches": inp["patches"], "chain": inp["patches"], "src": inp["src"]}) + "\n")
+            # "final-too": the result itself must be a fixed point of print + re-parse, since it is compared as text
+            f.write(json.dumps({"id": inp["id"], "patches": inp["patches"], "chain": inp["patches"], "src": inp["src"], "note": "final-too"}) + "\n")
     r = run([ctx.harness, "stable", "-inputs", pth], timeout=600)
     stable = r.stdout.split()
     if len(stable) != len(sample):
